@@ -353,7 +353,7 @@ Definition inputs_of (rs : list crule) (m : bytes) (yobs : list obs) : inputs :=
   let per (g : bool) := flat_map (fun ro : crule * obs => rule_matches m (fst ro) (snd ro))
                                  (filter (fun ro : crule * obs => Bool.eqb (c_global (fst ro)) g) ros) in
   {| i_matches := per true ++ per false; i_ext := []; i_filesize := Some (nlen m); i_mem := Some m;
-     i_ac_checks := 0 |}.
+     i_ac := []; i_imports := [] |}.
 
 (* libyara's verdicts are the ones Spec/RuleSetSpec.v assigns (private rules are not reported) *)
 Definition verdicts_spec_ok (rs : list crule) (m : bytes) (yobs : list obs) : bool :=
